@@ -1,7 +1,7 @@
 """C12 — SubscriptionTrie ≡ multiset-of-prefixes reference, for all short histories."""
 import z3
 from ..values import *
-from ..models import conj
+from ..models import conj, _deref
 from .common import *
 
 TRIE = "socket::patterns::trie::SubscriptionTrie"
@@ -179,17 +179,64 @@ def replay_history(model, params, role):
 # PUB: a stalled subscriber must not block the publisher or the delivery to other subscribers
 DIST = "socket::patterns::distributor::Distributor"
 SCA = "sessionx::iface::ScaConnectionIface"
-HELPER_CANDIDATES = ["socket::core::connection_sndtimeo", "socket::core::command_processor::connection_sndtimeo", "socket::options::connection_sndtimeo"]
+INPROC = "transport::inproc::connection::DirectInprocConnection"
+URING = "io_uring_backend::zmtp_handler::ZmtpSmartConnection"
+OPTS = "socket::options::SocketOptions"
+
+
+def _creation_sites(prog):
+    """every place in the crate that builds a connection object (or the engine configuration the io_uring worker
+    builds its connection from): (kind, function, local that holds the send timeout given to the connection)"""
+    from .. import slice as sl
+    sites = []
+    for fn, st in sl.find_sites(prog, "sessionx::iface::ScaConnectionIface::new("):
+        m = re.search(r"(?:copy|move) _(\d+)\) -> \[", st)
+        sites.append(("sca", fn, int(m.group(1)) if m else None))
+    for fn, st in sl.find_sites(prog, "transport::inproc::connection::DirectInprocConnection {"):
+        if fn.endswith("::clone") or "::tests::" in fn:
+            continue
+        m = re.search(r"sndtimeo: (?:copy|move) _(\d+)", st)
+        sites.append(("inproc", fn, int(m.group(1)) if m else None))
+    for fn, st in sl.find_sites(prog, "socket::options::ZmtpEngineConfig {"):
+        if fn.endswith("::clone") or fn.endswith("::default") or "::tests::" in fn:
+            continue
+        m = re.search(r"sndtimeo: (?:copy|move) _(\d+)", st)
+        sites.append(("engine_cfg", fn, int(m.group(1)) if m else None))
+    return sites
+
+
+def _timeout_at_site(h, fn, local, opts):
+    """the value the creation site passes for options `opts`: the site's MIR is followed backwards from the argument
+    to the expression that computes it - a field of the socket options, or a crate function applied to them, which is
+    then executed"""
+    from .. import slice as sl
+    from ..interp import Unsupported
+    prog = h.it.prog
+    body = prog.body(fn)
+    if local is None:
+        raise Unsupported(f"creation site in {fn}: timeout argument is not a local")
+    src = sl.value_source(body, local)
+    def is_opts(l):
+        return body.locals.get(l, "").replace(" ", "") in ("&" + OPTS, "&'_" + OPTS)
+    if src[0] == "field" and is_opts(src[1]):
+        return _deref(opts).f[src[2]], prog.struct_fields(OPTS)[src[2]]
+    if src[0] == "call" and len(src[2]) == 1 and is_opts(src[2][0]):
+        callee = h.it.resolve_fn(src[1], "")
+        if callee:
+            return h.it.run_body(prog.body(callee), [opts]), src[1]
+    raise Unsupported(f"creation site in {fn}: send timeout computed by an expression this driver does not follow: {src[-1][:120]}")
 
 
 def pub_never_blocks(h):
-    """Distributor::{send_to_all, send_to_all_multipart} (the PUB/XPUB fan-out, coroutine MIR) over two real
-    ScaConnectionIface connections: one whose pipe to the session is full (a subscriber that stopped reading), one with
-    room. The connections carry the send timeout the socket core gives a PUB socket's connections for a symbolic
-    SNDTIMEO option (-1, 0, any positive value). The publish call must complete at its first poll and the other
-    subscriber must get the message."""
+    """Distributor::{send_to_all, send_to_all_multipart} (the PUB fan-out, coroutine MIR) over two real connection
+    objects: one whose queue is full (a subscriber that stopped reading), one with room. The connections are of the
+    kind, and carry the send timeout, that a creation site of the crate gives a PUB socket's connections for a symbolic
+    SNDTIMEO option (-1, 0, any positive value): the site's MIR is sliced backwards from the timeout argument and the
+    expression found there is evaluated (executed when it is a crate function). The publish call must complete at its
+    first poll and the other subscriber must get the message."""
     from .d_c09 import Fut
     from ..models import some, none, ok, err, dur_ns, _deref, MapV, _ChanM, _chan_fut_poll
+    from ..interp import PathAbort
     prog = h.it.prog
     mode = h.choose(3, "sndtimeo")
     if mode == 0:
@@ -200,37 +247,45 @@ def pub_never_blocks(h):
         d = h.bvar("sndtimeo_ns", 128)
         h.assume(z3.And(z3.UGT(d, 0), z3.ULE(d, z3.BitVecVal(2147483647 * 1_000_000, 128))))
         opt = some(dur_ns(d))
-    # the send timeout the socket core hands to a PUB socket's connections
-    helper = None
-    for cand in HELPER_CANDIDATES:
-        f = h.it.resolve_fn(cand, "")
-        if f:
-            helper = f
-            break
-    vs = prog.enum_variants("socket::types::SocketType")
-    if helper is not None:
-        conn_timeo = h.it.run_body(prog.body(helper), [Enum("socket::types::SocketType", vs.index("Pub"), "Pub", []), opt])
-        h.cover("c12.pub.connection-timeout-from-helper")
-    else:
-        # no such function in this tree: the core passes the SNDTIMEO option through unchanged
-        # (socket/core/command_processor.rs: `let sndtimeo_snapshot = core_arc.core_state.read().options.sndtimeo;`)
-        src = open(prog.repo_core + "/src/socket/core/command_processor.rs").read()
-        h.check("sndtimeo_snapshot = core_arc.core_state.read().options.sndtimeo" in src, "c12.pub.setup-creation-site-not-recognised")
-        conn_timeo = opt
+    of = prog.struct_fields(OPTS)
+    ov = [Opaque(f) for f in of]
+    ov[of.index("sndtimeo")] = opt
+    ov[of.index("socket_type_name")] = string("PUB")            # SocketCore::create: format!("{:?}", SocketType::Pub).to_uppercase()
+    opts = Ref(Cell(Agg(OPTS, ov), "options"), ())
+    sites = _creation_sites(prog)
+    kinds = {k for k, _, _ in sites}
+    h.check({"sca", "inproc", "engine_cfg"} <= kinds, "c12.pub.setup-creation-sites-not-found", repr(sorted(kinds)))
+    kind, fn, local = sites[h.choose(len(sites), "creation_site")]
+    conn_timeo, how = _timeout_at_site(h, fn, local, opts)
+    if kind == "engine_cfg":
+        if not prog.resolve_method("", URING, "send_multipart", "ISocketConnection"):
+            raise PathAbort("engine configuration feeds the io_uring connection only; not in this feature set")
     stalled_first = h.choose(2, "stalled_subscriber_first") == 1
     chans = [_ChanM(1), _ChanM(1)]
     stalled = 0 if stalled_first else 1
     chans[stalled].items.append("occupant")
-    fields = prog.struct_fields(SCA)
-    def sca(i):
-        vals = {"sca_stop_mailbox": Opaque("mailbox"), "sca_handle_id": 10 + i, "pipe_sender": Agg("{chan.tx}", [chans[i]]), "pipe_write_id_to_sca": 20 + i,
-                "sndtimeo": clone_val(conn_timeo)}
-        return BoxV(Cell(Agg(SCA, [vals[f] for f in fields]), f"sca{i}"), (), SCA)
+    def conn(i):
+        if kind == "sca":
+            ty, fields = SCA, prog.struct_fields(SCA)
+            vals = {"sca_stop_mailbox": Opaque("mailbox"), "sca_handle_id": 10 + i, "pipe_sender": Agg("{chan.tx}", [chans[i]]), "pipe_write_id_to_sca": 20 + i}
+        elif kind == "inproc":
+            ty, fields = INPROC, prog.struct_fields(INPROC)
+            vals = {"connection_id": 10 + i, "target_endpoint_uri": string("inproc://x"), "peer_queue_sender": Agg("{chan.tx}", [chans[i]]), "monitor_tx": none(),
+                    "is_congested": BoxV(Cell(Agg("{atomic}", [False]), "congested"), (), "AtomicBool")}
+        else:
+            ty, fields = URING, prog.struct_fields(URING, features=("ipc", "inproc", "plain", "io-uring"))
+            vals = {"fd": 5 + i, "egress_tx": Agg("{chan.tx}", [chans[i]]), "event_fd": Opaque("eventfd"), "worker_asleep": Opaque("flag"), "work_signal_gen": Opaque("gen")}
+        vals["sndtimeo"] = clone_val(conn_timeo)
+        return BoxV(Cell(Agg(ty, [vals.get(f, Opaque(f)) for f in fields]), f"conn{i}"), (), ty)
+    h.it.hooks["socket::events::clean_endpoint_uri"] = lambda it, a, d, f: a[0]
+    sw = prog.resolve_method("", URING, "signal_worker", None) if kind == "engine_cfg" else None
+    if sw:
+        h.it.hooks[sw] = lambda it, a, d, f: UNIT
     uris = [string("tcp://a"), string("tcp://b")]
     ef = prog.struct_fields("socket::core::state::EndpointInfo")
     def endpoint(i):
         v = [Opaque(f) for f in ef]
-        v[ef.index("connection_iface")] = sca(i)
+        v[ef.index("connection_iface")] = conn(i)
         v[ef.index("endpoint_uri")] = clone_val(uris[i])
         return Agg("socket::core::state::EndpointInfo", v)
     csf = prog.struct_fields("socket::core::state::CoreState")
@@ -268,19 +323,25 @@ def pub_never_blocks(h):
     else:
         f = Fut(h, DIST, "send_to_all", [dist, Ref(Cell(msg, "msg"), ()), 1, core_state])
     r = f.poll()
-    h.check(r is not None, "c12.pub.publisher-blocked-by-a-subscriber-that-stopped-reading",
-            f"SNDTIMEO option {'-1' if mode == 0 else ('0' if mode == 1 else 'positive')}: publishing with one subscriber whose queue is full parks the publisher "
-            f"(the connection waits for room{' without limit' if mode == 0 else ''}); {'the other subscriber, served after it, has not received the message either' if stalled_first else 'delivery to later subscribers waits as well'}")
+    where = fn.split("::{closure")[0].rsplit("::", 1)[-1]
+    mname = ["infinite", "zero", "positive"][mode]
+    h.check(r is not None, f"c12.pub.publisher-blocked-by-a-subscriber-that-stopped-reading.{kind}.sndtimeo-{mname}",
+            f"SNDTIMEO option {'-1' if mode == 0 else ('0' if mode == 1 else 'positive')}, connection built in {where}() with the timeout from {how}: publishing with one subscriber whose queue is full parks the publisher "
+            f"({'the other subscriber, served after it, has not received the message either' if stalled_first else 'delivery to later subscribers waits as well'})")
     if r is None:
         return
     other = 1 - stalled
     h.check(len(chans[other].items) == 1, "c12.pub.healthy-subscriber-did-not-get-the-message", str(len(chans[other].items)))
     h.check(chans[stalled].items == ["occupant"], "c12.pub.message-enqueued-on-the-full-pipe")
-    h.cover("c12.pub.dropped-for-the-stalled-subscriber")
+    h.check(r.idx == 0, "c12.pub.full-queue-reported-as-a-failed-peer", "a subscriber that is only slow would be removed from the distributor")
+    h.cover(f"c12.pub.dropped-for-the-stalled-subscriber.{kind}")
 
 
 def replay_pub_never_blocks(model, params, role):
-    if "publisher-blocked" in role:
+    if "publisher-blocked" in role and ".sca." in role:
         return "pub_stalled_subscriber\n", (lambda out: "PUBLISHER BLOCKED" in out), \
-            "PUB (SNDHWM 1) with a raw subscriber that stopped reading and a healthy SUB; expecting a publish call to block for seconds"
+            "tcp: PUB (SNDHWM 1, default SNDTIMEO) with a raw subscriber that stopped reading and a healthy SUB; expecting a publish call to block for seconds"
+    if "publisher-blocked" in role and ".inproc." in role:
+        return "pub_stalled_subscriber_inproc\n", (lambda out: "PUBLISHER BLOCKED" in out), \
+            "inproc: PUB (SNDHWM 1, default SNDTIMEO) with a SUB (RCVHWM 1) that never calls recv and a healthy SUB; expecting a publish call to block for seconds"
     return None
